@@ -488,69 +488,6 @@ pub proof fn lemma_rule_invoke_super(s: u16)
   }
 }
 
-// ---- window bookkeeping ------------------------------------------------------------------------------
-/// length of the run of `Drop` at the head of `s`
-pub open spec fn drop_run(s: Seq<SymbolicByteCode>) -> nat
-  decreases s.len()
-{
-  if s.len() > 0 && s[0] == SymbolicByteCode::Drop { 1 + drop_run(s.subrange(1, s.len() as int)) } else { 0 }
-}
-
-pub proof fn lemma_drop_run_bound(s: Seq<SymbolicByteCode>)
-  ensures drop_run(s) <= s.len(),
-          forall|j: int| 0 <= j < drop_run(s) ==> s[j] == SymbolicByteCode::Drop,
-          drop_run(s) < s.len() ==> s[drop_run(s) as int] != SymbolicByteCode::Drop,
-  decreases s.len(),
-{
-  if s.len() > 0 && s[0] == SymbolicByteCode::Drop {
-    let t = s.subrange(1, s.len() as int);
-    lemma_drop_run_bound(t);
-    assert forall|j: int| 0 <= j < drop_run(s) implies s[j] == SymbolicByteCode::Drop by {
-      if j > 0 { assert(t[j - 1] == s[j]); }
-    }
-    if drop_run(s) < s.len() { assert(t[drop_run(t) as int] == s[drop_run(s) as int]); }
-  }
-}
-
-/// longest run of consecutive `Drop` anywhere in the code (the compiler keeps it <= 255 for accepted programs)
-pub open spec fn max_drop_run(s: Seq<SymbolicByteCode>) -> nat
-  decreases s.len()
-{
-  if s.len() == 0 { 0 } else {
-    let here = drop_run(s);
-    let rest = max_drop_run(s.subrange(1, s.len() as int));
-    if here >= rest { here } else { rest }
-  }
-}
-
-pub proof fn lemma_max_drop_run_suffix(s: Seq<SymbolicByteCode>, k: int)
-  requires 0 <= k <= s.len(),
-  ensures drop_run(s.subrange(k, s.len() as int)) <= max_drop_run(s),
-  decreases k,
-{
-  if k == 0 {
-    assert(s.subrange(0, s.len() as int) =~= s);
-    if s.len() == 0 { } else { }
-  } else {
-    let t = s.subrange(1, s.len() as int);
-    lemma_max_drop_run_suffix(t, k - 1);
-    assert(t.subrange(k - 1, t.len() as int) =~= s.subrange(k, s.len() as int));
-  }
-}
-
-pub proof fn lemma_drop_run_ge(s: Seq<SymbolicByteCode>, k: nat)
-  requires k <= s.len(), forall|j: int| 0 <= j < k ==> s[j] == SymbolicByteCode::Drop,
-  ensures drop_run(s) >= k,
-  decreases k,
-{
-  if k > 0 {
-    let t = s.subrange(1, s.len() as int);
-    assert forall|j: int| 0 <= j < k - 1 implies t[j] == SymbolicByteCode::Drop by { assert(t[j] == s[j + 1]); }
-    lemma_drop_run_ge(t, (k - 1) as nat);
-    assert(s[0] == SymbolicByteCode::Drop);
-  }
-}
-
 /// frame + progress shared by every rewrite: cursors stay well formed and in lock step, the vector keeps its
 /// length, the unread suffix is untouched, at least one instruction is consumed
 #[verifier::opaque]
@@ -565,6 +502,7 @@ pub open spec fn rewrite_frame(oi: &VecCursor<SymbolicByteCode>, ol: &VecCursor<
 
 /// C12 (d) / C18 for one rewrite: every line emitted for the window is the line of the window's first
 /// instruction, or the emitted lines are the window's own lines copied position by position
+#[verifier::opaque]
 pub open spec fn lines_attached(ol: &VecCursor<u16>, nl: &VecCursor<u16>) -> bool {
   let emitted = nl.written().subrange(ol.writer as int, nl.writer as int);
   let consumed = nl.reader - ol.reader;
@@ -640,4 +578,59 @@ pub proof fn lemma_step(oi: &VecCursor<SymbolicByteCode>, ol: &VecCursor<u16>, n
   } else {
     lemma_copy_step(oi, ni, input);
   }
+}
+
+// ---- C12 (d) / C18 at the level of the whole pass ------------------------------------------------------
+/// every output line is the line of an input instruction, and the origins are in input order
+pub open spec fn lines_from(out_lines: Seq<u16>, in_lines: Seq<u16>, origin: Seq<int>) -> bool {
+  &&& origin.len() == out_lines.len()
+  &&& forall|j: int| 0 <= j < origin.len() ==> 0 <= #[trigger] origin[j] < in_lines.len() && out_lines[j] == in_lines[origin[j]]
+  &&& forall|i: int, j: int| 0 <= i < j < origin.len() ==> origin[i] <= origin[j]
+}
+
+pub open spec fn lines_ok(out_lines: Seq<u16>, in_lines: Seq<u16>) -> bool { exists|origin: Seq<int>| lines_from(out_lines, in_lines, origin) }
+
+pub open spec fn lines_inv(l: &VecCursor<u16>, in_lines: Seq<u16>, origin: Seq<int>) -> bool {
+  &&& l.wf() && l.vec.len() == in_lines.len()
+  &&& l.unread() == in_lines.subrange(l.reader as int, in_lines.len() as int)
+  &&& lines_from(l.written(), in_lines, origin)
+  &&& forall|j: int| 0 <= j < origin.len() ==> #[trigger] origin[j] < l.reader
+}
+
+pub proof fn lemma_lines_step(ol: &VecCursor<u16>, nl: &VecCursor<u16>, in_lines: Seq<u16>, origin: Seq<int>) -> (r: Seq<int>)
+  requires lines_inv(ol, in_lines, origin), lines_attached(ol, nl), nl.wf(), nl.vec.len() == ol.vec.len(),
+           ol.reader < nl.reader || nl.writer == ol.writer,
+  ensures lines_inv(nl, in_lines, r),
+{
+  reveal(lines_attached);
+  let emitted = nl.written().subrange(ol.writer as int, nl.writer as int);
+  let first = forall|j: int| #![auto] 0 <= j < emitted.len() ==> emitted[j] == ol.unread()[0];
+  let r = Seq::new(nl.writer as nat, |j: int| if j < ol.writer { origin[j] } else if first { ol.reader as int } else { ol.reader + (j - ol.writer) });
+  assert(nl.unread() =~= in_lines.subrange(nl.reader as int, in_lines.len() as int));
+  assert forall|j: int| 0 <= j < r.len() implies 0 <= #[trigger] r[j] < in_lines.len() && nl.written()[j] == in_lines[r[j]] && r[j] < nl.reader by {
+    if j < ol.writer {
+      assert(nl.written().subrange(0, ol.writer as int)[j] == ol.written()[j]);
+      assert(origin[j] < ol.reader);
+    } else {
+      assert(emitted[j - ol.writer] == nl.written()[j]);
+      if first { assert(ol.unread()[0] == in_lines[ol.reader as int]); }
+      else { assert(ol.unread()[j - ol.writer] == in_lines[ol.reader + (j - ol.writer)]); }
+    }
+  }
+  assert forall|i: int, j: int| 0 <= i < j < r.len() implies r[i] <= r[j] by {
+    if i < ol.writer { assert(origin[i] < ol.reader); }
+  }
+  r
+}
+
+/// a plain copy or a consumed-without-output step also keeps lines attached
+pub proof fn lemma_lines_copy(ol: &VecCursor<u16>, nl: &VecCursor<u16>)
+  requires ol.wf(), nl.wf(), ol.reader < ol.vec.len(), nl.vec.len() == ol.vec.len(), nl.reader == ol.reader + 1,
+    nl.unread() == ol.unread().subrange(1, ol.unread().len() as int),
+    (nl.writer == ol.writer && nl.written() == ol.written()) || (nl.writer == ol.writer + 1 && nl.written() == ol.written().push(ol.unread()[0])),
+  ensures lines_attached(ol, nl),
+{
+  reveal(lines_attached);
+  let emitted = nl.written().subrange(ol.writer as int, nl.writer as int);
+  assert(nl.written().subrange(0, ol.writer as int) =~= ol.written());
 }
